@@ -144,11 +144,14 @@ def gen_utimes(rng, cid):
 class Fam:
     """a family of programs: progs[0] is the top; every program knows its includes, inherits and function texts"""
 
-    def __init__(self, rng, cid, nprog=None, big=False, saves=None, sb_force=None):
+    def __init__(self, rng, cid, nprog=None, big=False, saves=None, sb_force=None, shape=None):
         self.rng = rng
         self.dir = "c17/w/" + cid
         self.used_names = set()
         nprog = rng.range(1, 4) if nprog is None else nprog
+        self.shape = shape
+        if shape == "siblings":
+            nprog = 3
         self.progs = []
         for i in range(nprog):
             # names of different lengths (the binary stores the names of the program and of its parents)
@@ -157,7 +160,13 @@ class Fam:
         # inheritance: a chain, sometimes the top inherits two
         for i in range(nprog - 1):
             self.progs[i]["inh"].append(i + 1)
-        if nprog >= 3 and rng.chance(1, 3):
+        if shape == "siblings":
+            # two programs share a parent: p0 and p1 both inherit p2 (p1 is loaded only by the sibling steps)
+            for p in self.progs:
+                p["inh"] = []
+            self.progs[0]["inh"] = [2]
+            self.progs[1]["inh"] = [2]
+        elif nprog >= 3 and rng.chance(1, 3):
             self.progs[1]["inh"].remove(2)
             self.progs[0]["inh"].append(2)
         self.incs = {}     # include file name -> constant
@@ -173,6 +182,10 @@ class Fam:
                 else:
                     self.incs[nm] = {"k": rng.range(1, 50), "nested": None}
                 p["inc"].append(nm)
+        if shape == "siblings":
+            nm = "h%d.h" % len(self.incs)             # the shared parent has a header of its own
+            self.incs[nm] = {"k": rng.range(1, 50), "nested": None}
+            self.progs[2]["inc"].append(nm)
         # one nested include now and then
         names = sorted(n for n in self.incs if not self.incs[n].get("global"))
         if len(names) >= 2 and rng.chance(1, 2):
@@ -401,7 +414,9 @@ class Fam:
         the value the source prescribes for it is the expectation"""
         rng = self.rng
         toks, expect = [], []
-        for p in self.progs:
+        for n, p in enumerate(self.progs):
+            if self.shape == "siblings" and n == 1:
+                continue
             for f in p["fns"]:
                 if not f["public"] or len(toks) > 300:
                     continue
@@ -420,8 +435,8 @@ class Fam:
         return toks, expect
 
 
-def sys_case(rng, cid, steps=None, nprog=None, big=False, script=None, mode=None, saves=None, sb_force=None):
-    fam = Fam(rng, cid, nprog=nprog, big=big, saves=saves, sb_force=sb_force)
+def sys_case(rng, cid, steps=None, nprog=None, big=False, script=None, mode=None, saves=None, sb_force=None, shape=None):
+    fam = Fam(rng, cid, nprog=nprog, big=big, saves=saves, sb_force=sb_force, shape=shape)
     t = 1000
     L = ["clean /" + fam.dir]
     for nm in sorted(fam.incs):
@@ -585,6 +600,29 @@ def sys_case(rng, cid, steps=None, nprog=None, big=False, script=None, mode=None
                     fam.progs[i]["k"] += 1
                     L.append("file /%s %s" % (fam.path(i), hx(fam.text(i))))
                     L.append("mtime /%s %d" % (fam.path(i), t))
+        elif act == "sibling-rebuild" and fam.shape == "siblings" and mode == "reload":
+            # p0 and p1 both inherit p2.  A header only p2 includes is edited; then only the sibling p1 is loaded again
+            # (compiled and saved again: newer than the header) while p0's binary stays older than the header.  After a
+            # restart both are loaded one after the other with p2 staying in memory: the driver is asked about the same
+            # parent program twice, with two different binary times.  (p1 is never the top of the ordinary reloads.)
+            own = [nm for nm in fam.progs[2]["inc"] if all(nm not in fam.progs[j]["inc"] for j in range(2))]
+            if own:
+                nm = rng.choice(own)
+                fam.incs[nm]["k"] += 1
+                L.append("file /%s %s" % (fam.inc_path(nm), hx(fam.inc_text(nm))))
+                L.append("mtime /%s %d" % (fam.inc_path(nm), t))
+                L.append("calls nosuch_zz:x")
+                for fam_line in ("reload %s %s | %s" % (objs[1], objs[2], objs[0]), None,
+                                 "reload %s %s" % (objs[1], objs[2]), "reload %s | %s" % (objs[0], objs[2])):
+                    if fam_line is None:
+                        L.append("restart " + " ".join(objs))
+                        continue
+                    t += 10
+                    L.append("now %d" % t)
+                    L.append("intern " + " ".join(hx(n) for n in rng.shuffle(names)))
+                    L.append(fam_line)
+                    t += 10
+                L.append("calls " + " ".join(calls))
         elif act == "shadow-inc":
             # a header found in the include directory gets a namesake next to the sources (older or newer than everything)
             cand = [nm for nm in sorted(fam.incs) if fam.incs[nm].get("global") and not fam.incs[nm].get("shadowed")]
@@ -720,6 +758,14 @@ def boundary():
                          mode=["reloadp", "reload"][seed % 2])
             c.id = "b-sys-refused-resave-%d-%d" % (k, seed)
             B.append(c)
+    # two programs share a parent whose own header is edited; one of them is rebuilt before everything is loaded again
+    for k, (saves, script) in enumerate([([True, True, False], ["sibling-rebuild", "nothing"]),
+                                         ([True, True, False], ["sibling-rebuild", "sibling-rebuild", "nothing"]),
+                                         ([True, True, True], ["sibling-rebuild", "nothing"])]):
+        for seed in (7800, 7801, 7802, 7803):
+            c = sys_case(E.Rng(seed + 10 * k), "sb%d_%d" % (k, seed), script=script, saves=saves, shape="siblings", mode="reload")
+            c.id = "b-sys-siblings-%d-%d" % (k, seed)
+            B.append(c)
     # a header in the include directory is shadowed by a new file next to the sources (seeds chosen so that the family has one)
     nsh = 0
     for seed in range(7700, 7760):
@@ -748,7 +794,13 @@ def generate(rng, n, tier):
     out = []
     for i in range(n):
         if rng.chance(3, 10):
-            out.append(sys_case(rng, "g%d" % i))
+            if rng.chance(1, 8):
+                # two programs sharing a parent, rebuilt one at a time
+                out.append(sys_case(rng, "g%d" % i, shape="siblings", mode="reload",
+                                    script=[rng.choice(["sibling-rebuild", "nothing", "edit-inc"]) for _ in range(rng.range(1, 3))] +
+                                           ["sibling-rebuild", "nothing"]))
+            else:
+                out.append(sys_case(rng, "g%d" % i))
         else:
             out.append(unit_case(rng, "g%d" % i))
     return out
